@@ -29,6 +29,7 @@ func checkC07(c *Ctx, e *Env) {
 		return
 	}
 	noteUndecided(c, m, r, "C07.E1")
+	ruleArith(c, e, "C07.ARITH", func(ep *EntryPoint) bool { return ep.Kind == "msg" && ep.Key() == "marketplace.BuyDirect" })
 	pos := p.Pos(h.Fn.Pos())
 	type agg struct {
 		n   int
